@@ -285,3 +285,26 @@ def _ghost_interp(it, t2, method="linear", **k):
 CONTRACTS["parameters:Parameter.interpolate"] = dict(
     schema=schema, make_env=_env_hv("adults", True), call_stubs={"self.ts[pop_name].interpolate": _ghost_interp},
     ensures=[("C06.the_populations_own_series_is_interpolated_at_the_requested_times_with_the_parameters_method", "result == 'VALUES' and TS.CALLS == [('TIMES', 'linear')]")], defined_props=["C06"])
+
+
+# ---- ParameterSet.y_factors (C16: the calibration sheet is this view written out; C15): one entry per quantity, keyed (name, None), holding the all-population factor and every
+# population's factor; one entry per (transfer / interaction, population pair) holding the same for its parameter
+def _env_yf(it):
+    import z3
+    from pyvc.interp import PyObjV
+    from pyvc import source
+
+    pm = source.load("parameters")
+    m, a, c, tm, ta = (z3.Real(n) for n in ("meta", "f_adults", "f_children", "t_meta", "t_adults"))
+    par = PyObjV("Parameter", pm, {"name": "q", "meta_y_factor": m, "y_factor": {"adults": a, "children": c}})
+    tpar = PyObjV("Parameter", pm, {"name": "age_from_adults", "meta_y_factor": tm, "y_factor": {"children": ta}})
+    self = PyObjV("ParameterSet", pm, {"name": "ps", "pars": {"q": par}, "interactions": {}, "transfers": {"age": {"adults": tpar}}})
+    return {"self": self, "meta": m, "f_adults": a, "f_children": c, "t_meta": tm, "t_adults": ta, "TDC_ITEMS": [("age", {"adults": tpar})]}
+
+
+CONTRACTS["parameters:ParameterSet.y_factors"] = dict(
+    schema=schema, make_env=_env_yf, call_stubs={"sc.mergedicts": (lambda it, *ds: {k: v for d in ds for k, v in d.items()})},
+    stubs={"self.interactions.items() + self.transfers.items()": "TDC_ITEMS"}, ghost_params={},
+    ensures=[("C16+C15.every_quantity_has_one_entry_with_its_all_population_factor_and_each_populations_factor", "result['q', None] == {'meta_y_factor': meta, 'adults': f_adults, 'children': f_children}"),
+             ("C16+C15.every_transfer_parameter_has_one_entry_keyed_by_transfer_and_population", "result['age', 'adults'] == {'meta_y_factor': t_meta, 'children': t_adults} and len(result) == 2")],
+    defined_props=["C16", "C15"])
